@@ -69,6 +69,83 @@ CAmount ModelDustThreshold(const CTxOut& out, CAmount rate)
 }
 bool ModelIsDust(const CTxOut& out, CAmount rate) { return out.nValue < ModelDustThreshold(out, rate); }
 
+namespace {
+struct ParsedOp { int opcode; std::vector<unsigned char> data; };
+/** minimal script tokenizer; stops at the first malformed push (as the sigop counters do) */
+std::vector<ParsedOp> ParseScript(const std::vector<unsigned char>& b)
+{
+    std::vector<ParsedOp> out;
+    size_t i = 0;
+    while (i < b.size()) {
+        const int op = b[i++];
+        size_t n = 0;
+        if (op >= 1 && op <= 75) n = size_t(op);
+        else if (op == 76) { if (i + 1 > b.size()) break; n = b[i]; i += 1; }
+        else if (op == 77) { if (i + 2 > b.size()) break; n = size_t(b[i]) | (size_t(b[i + 1]) << 8); i += 2; }
+        else if (op == 78) { if (i + 4 > b.size()) break; n = size_t(b[i]) | (size_t(b[i + 1]) << 8) | (size_t(b[i + 2]) << 16) | (size_t(b[i + 3]) << 24); i += 4; }
+        if (op <= 78) {
+            if (i + n > b.size()) break;
+            out.push_back({op, std::vector<unsigned char>(b.begin() + i, b.begin() + i + n)});
+            i += n;
+        } else {
+            out.push_back({op, {}});
+        }
+    }
+    return out;
+}
+int64_t CountSigOps(const std::vector<unsigned char>& script, bool accurate)
+{
+    int64_t n = 0;
+    int last = 0xff;
+    for (const auto& p : ParseScript(script)) {
+        if (p.opcode == 0xac || p.opcode == 0xad) n += 1;                       // OP_CHECKSIG, OP_CHECKSIGVERIFY
+        else if (p.opcode == 0xae || p.opcode == 0xaf) {                         // OP_CHECKMULTISIG(VERIFY)
+            if (accurate && last >= 0x51 && last <= 0x60) n += last - 0x50; else n += 20;
+        }
+        last = p.opcode;
+    }
+    return n;
+}
+std::vector<unsigned char> Bytes(const CScript& s) { return std::vector<unsigned char>(s.begin(), s.end()); }
+bool IsP2SHBytes(const std::vector<unsigned char>& b) { return b.size() == 23 && b[0] == 0xa9 && b[1] == 0x14 && b[22] == 0x87; }
+/** witness program: version + program, or version -1 */
+std::pair<int, std::vector<unsigned char>> WitnessProgramOf(const std::vector<unsigned char>& b)
+{
+    if (b.size() < 4 || b.size() > 42) return {-1, {}};
+    if (b[0] != 0 && (b[0] < 0x51 || b[0] > 0x60)) return {-1, {}};
+    if (size_t(b[1]) + 2 != b.size()) return {-1, {}};
+    return {b[0] == 0 ? 0 : b[0] - 0x50, std::vector<unsigned char>(b.begin() + 2, b.end())};
+}
+} // namespace
+
+int64_t ModelSigOpCost(const CTransaction& tx, const std::function<std::optional<CScript>(const COutPoint&)>& spk_of)
+{
+    int64_t legacy = 0;
+    for (const auto& in : tx.vin) legacy += CountSigOps(Bytes(in.scriptSig), false);
+    for (const auto& out : tx.vout) legacy += CountSigOps(Bytes(out.scriptPubKey), false);
+    int64_t cost = legacy * 4;
+    if (tx.IsCoinBase()) return cost;
+    for (const auto& in : tx.vin) {
+        const auto spk = spk_of(in.prevout);
+        if (!spk) continue;
+        std::vector<unsigned char> prog_script = Bytes(*spk);
+        if (IsP2SHBytes(prog_script)) {
+            // redeem script = last push of a push-only scriptSig
+            const auto ops = ParseScript(Bytes(in.scriptSig));
+            bool push_only = !ops.empty();
+            for (const auto& p : ops) if (p.opcode > 0x60) push_only = false;
+            if (!push_only) continue;
+            const std::vector<unsigned char>& redeem = ops.back().data;
+            cost += 4 * CountSigOps(redeem, true);
+            prog_script = redeem;
+        }
+        const auto [ver, prog] = WitnessProgramOf(prog_script);
+        if (ver == 0 && prog.size() == 20) cost += 1;
+        else if (ver == 0 && prog.size() == 32 && !in.scriptWitness.stack.empty()) cost += CountSigOps(in.scriptWitness.stack.back(), true);
+    }
+    return cost;
+}
+
 CScript P2AScript() { return CScript() << OP_1 << std::vector<unsigned char>{0x4e, 0x73}; }
 
 // ---------------------------------------------------------------- ModelPool
